@@ -3,6 +3,7 @@ import random
 import time
 
 from vlib import simworld as S
+from vlib import tlc
 from adapters import poolsim
 from adapters.poolsim import f, value, decode
 
@@ -93,6 +94,118 @@ def scenarios(rnd, quick):
     return out
 
 
+def real_leg(ctx, quick, rnd):
+    """FunctorMap and mul_p_map with REAL processes, observed through the same events and judged by PoolObs.tla."""
+    import json
+    import multiprocessing
+    import os
+    import select
+    import signal
+    import sys
+    from vlib import model, tracecheck
+    from adapters import realrun
+
+    def child(scen, wfd):
+        sys.path.insert(0, "/repo")
+        import importlib
+        import windpyutils.parallel.pools as pools
+        import windpyutils.parallel.workers as workers
+        import windpyutils.parallel.maps as maps
+        for m in (pools, workers, maps):
+            importlib.reload(m)
+        n = [0]
+
+        def ev(**kw):
+            n[0] += 1
+            os.write(wfd, (json.dumps([n[0], kw]) + "\n").encode())
+        ev(op="cfg", **JUDGE)
+        if scen["pool"] == "functormap":
+            with pools.FunctorMap(f, scen["nw"]) as fm:
+                for ci, call in enumerate(scen["calls"]):
+                    c = ci + 1
+                    ev(op="call_begin", c=c, n=call["n"], chunk=call["chunk"], ord=1)
+                    for y in fm(iter([value(c, i) for i in range(call["n"])]), call["chunk"]):
+                        cc, ii = decode(y)
+                        ev(op="yield", c=cc, i=ii)
+                    ev(op="call_end")
+        else:
+            for ci, call in enumerate(scen["calls"]):
+                c = ci + 1
+                ev(op="call_begin", c=c, n=call["n"], chunk=1, ord=1)
+                for y in maps.mul_p_map(f, [value(c, i) for i in range(call["n"])], scen["nw"]):
+                    cc, ii = decode(y)
+                    ev(op="yield", c=cc, i=ii)
+                ev(op="call_end")
+        ev(op="exit", alive=len(multiprocessing.active_children()))
+    scens = [dict(pool="functormap", nw=2, calls=[dict(n=7, chunk=2), dict(n=0, chunk=1), dict(n=3, chunk=1)]),
+             dict(pool="functormap", nw=3, calls=[dict(n=2, chunk=5)]),
+             dict(pool="mulpmap", nw=2, calls=[dict(n=5), dict(n=0), dict(n=3)]),
+             dict(pool="mulpmap", nw=3, calls=[dict(n=1)])]
+    for _ in range(0 if quick else 12):
+        scens.append(dict(pool=rnd.choice(["functormap", "mulpmap"]), nw=rnd.randint(1, 3),
+                          calls=[dict(n=rnd.randint(0, 9), chunk=rnd.randint(1, 4)) for _ in range(rnd.randint(1, 3))]))
+    traces, meta = [], []
+    for i, s in enumerate(scens):
+        s["name"] = "realmap%d" % i
+        r, w = os.pipe()
+        pid = os.fork()
+        if pid == 0:
+            code = 0
+            try:
+                os.setsid()
+                os.close(r)
+                child(s, w)
+            except BaseException as e:      # noqa
+                os.write(w, (json.dumps([10 ** 9, {"op": "harness_exc", "what": repr(e)[:200]}]) + "\n").encode())
+                code = 1
+            finally:
+                os._exit(code)
+        os.close(w)
+        buf, events, finished = b"", [], False
+        deadline = time.time() + 90
+        while time.time() < deadline:
+            rd, _, _ = select.select([r], [], [], 0.3)
+            if rd:
+                chunk = os.read(r, 1 << 16)
+                if chunk:
+                    buf += chunk
+                    while b"\n" in buf:
+                        line, buf = buf.split(b"\n", 1)
+                        events.append(json.loads(line))
+                    continue
+            done, _ = os.waitpid(pid, os.WNOHANG)
+            if done:
+                finished = True
+                break
+        try:
+            os.killpg(pid, signal.SIGKILL)
+        except OSError:
+            pass
+        if not finished:
+            try:
+                os.waitpid(pid, 0)
+            except OSError:
+                pass
+        os.close(r)
+        events.sort(key=lambda e: e[0])
+        tr, exc = realrun.to_trace([e[1] for e in events], finished)
+        if exc is not None:
+            raise tlc.MachineryError("C05 real leg: %s" % (exc,))
+        traces.append(tr)
+        meta.append((s, finished))
+    verdicts = tracecheck.validate(poolsim.OBS, model.constants_block({"MaxN": 3, "MaxWorkers": 2}), traces, ctx, "C05_real")
+    for (s, fin), tr, (matched, total) in zip(meta, traces, verdicts):
+        ctx.traces += 1
+        ctx.case(("C05real", json.dumps(s, sort_keys=True)))
+        if matched != total:
+            evx = tr[matched]["op"]
+            ctx.violation({"kind": "realrun", "scenario": s["name"], "event": evx["op"], "pool": s["pool"]},
+                          "C05 (real processes): scenario %s is rejected by the observer specification at event %d %s" % (
+                              json.dumps(s, sort_keys=True), matched, json.dumps(evx)),
+                          {"engine": "realrun", "scenario": s, "events": [t["op"] for t in tr][:300], "rejected_at": matched})
+    ctx.extra["real_process_executions"] = {"count": len(traces)}
+
+
 def run(ctx):
     quick = ctx.tier == "quick"
     ctx.rule = ("the real pools.py (FunctorMap) and maps.py + workers.py (mul_p_map with its class-level queues, the modules are "
@@ -102,8 +215,17 @@ def run(ctx):
                 "PoolObs.tla (results + termination). distinct = distinct (scenario, schedule) executions")
     ctx.assumptions += ["shim fidelity: documented blocking semantics of multiprocessing.Queue / Process", "bounded exploration of schedules"]
     rnd = random.Random(ctx.seed * 7919 + 5)
+    real_leg(ctx, quick, rnd)
     h = Harness()
     scens = scenarios(rnd, quick)
+    probe = h.execute(scens[0], S.scripted_chooser([]))
+    pexc = next((t.exc for t in probe.tasks if t.exc is not None), None)
+    if isinstance(pexc, (ImportError, NotImplementedError, AttributeError, TypeError)):
+        # the code uses something the shims do not offer (the real-process leg above ran the same kind of scenario without
+        # trouble): coverage degrades to the real-process leg, no alarm is raised for a limit of the machinery
+        ctx.note("controlled execution not possible (%r); only the real-process leg ran" % (pexc,))
+        ctx.extra["controlled_legs"] = "not-run"
+        return
     worlds, ws = poolsim.explore_all(h, scens, ctx.seed * 7919 + 5, 400 if quick else 15000, ctx)
     steps = sum(w.steps for w in worlds)
     outcomes = {}
